@@ -99,11 +99,6 @@ theorem cons_dayTombs (db : Db) (k : Key) (d d' : Day) (h1 : d' ≠ d) (rows : L
 
 /-! ### statements preserve the working invariant -/
 
-def Stmt.touchesLog : Stmt → Bool
-  | .put _ _ _ => true
-  | .del _ _ _ => true
-  | _ => false
-
 theorem recomputeLog_mem {db : Db} {e' : LogEntry} (h : e' ∈ recomputeLog db) :
     ∃ e ∈ db.log, e'.day = e.day ∧
       ((e.dirty = true ∧ e'.dirty = false ∧ Fresh db e') ∨ (e.dirty = false ∧ e' = e)) := by
